@@ -164,8 +164,11 @@ def run(prog: Program, rep: Report, tier: str) -> None:
                 found = node
         if found is None:
             raise AnalysisError(f"Tracker.__init__: assignment to self.{flag} not found")
-        names = {n.id for n in ast.walk(found.value) if isinstance(n, ast.Name)}
-        cmp_ok = any(isinstance(n, ast.Compare) and isinstance(n.ops[0], (ast.Gt, ast.GtE, ast.NotEq)) for n in ast.walk(found.value)) or unparse(found.value) in (f"bool({param})", param)
+        from ..program import expand_locals
+
+        fv = expand_locals(found.value, init.node)  # a temporary holding the comparison reads as the comparison
+        names = {n.id for n in ast.walk(fv) if isinstance(n, ast.Name)}
+        cmp_ok = any(isinstance(n, ast.Compare) and isinstance(n.ops[0], (ast.Gt, ast.GtE, ast.NotEq)) for n in ast.walk(fv)) or unparse(fv) in (f"bool({param})", param)
         rep.check("R11.4", init.qual, short(found), param in names and cmp_ok, what_bad=f"the {flag} switch must be derived from the {param} coefficient being positive", what_ok="coefficient > 0", loc=init.loc(found))
     # no draw cached at construction
     cached = [n for n in walk_no_nested(init.node) if isinstance(n, ast.Call) and isinstance(n.func, ast.Attribute) and n.func.attr in ("normal", "standard_normal", "random")]
